@@ -358,6 +358,80 @@ def job_library(name, get_project):
 
 
 # ------------------------------------------------------------------------------------------------
+# job: generated FRAMEWORK (junctions with residual outflows, duration groups, sources/sinks, transfers): export, re-import, compare, simulate
+# ------------------------------------------------------------------------------------------------
+def job_genfw(seed):
+    import random as _random
+
+    import atomica as at
+    from vlib import genfw
+
+    rec = Rec()
+    r = _random.Random(seed)
+    spec = None
+    for _ in range(20):
+        sp = genfw.random_spec(r, "calibrated", {"junctions": r.choice([1, 2, 3]), "residual": r.random() < 0.7, "timed": r.choice([0, 1]), "max_rows": 8, "nsteps": 6,
+                                                 "npops": r.choice([1, 2]), "functions": r.random() < 0.5})
+        try:
+            fw, data, parset, settings = genfw.build(sp)
+            # the generator dates some values between the databook's year columns; a databook holds one column per entry of its tvec (values dated elsewhere are
+            # outside the domain of the round-trip law, see Tables.WF / tdve_drop_witness), so the year vector is widened to every date in use first
+            times = {float(t) for t in data.tvec}
+            for tab in list(data.tdve.values()) + list(data.transfers) + list(data.interpops):
+                for ts in tab.ts.values():
+                    times |= {float(t) for t in ts.t}
+            data.change_tvec(np.array(sorted(times)))
+            parset = at.ParameterSet(fw, data, "default")
+            r1, e1 = try_sim(settings, fw, parset)
+            if e1 is None:
+                spec = sp
+                break
+        except Exception:
+            continue
+    if spec is None:
+        rec.count("genfw.none_accepted")
+        return rec
+    base = {"api": "generated framework", "seed": seed}
+    replay = {"kind": "genfw", "seed": seed, "spec": spec}
+    n_res = sum(1 for t in spec["transitions"] if t[2] == ">")
+    rec.count("genfw.frameworks")
+    if n_res:
+        rec.count("genfw.with_residual_link")
+    if any(p.get("timed") for p in spec["pars"]):
+        rec.count("genfw.with_duration_group")
+    try:
+        f2 = rt_framework(fw)
+        f3 = rt_framework(f2)
+    except Exception as ex:
+        rec.violation({"api": "ProjectFramework.to_spreadsheet", "case": "generated framework cannot be read back"}, f"generated framework (seed {seed}): {type(ex).__name__}: {str(ex)[:300]}", replay)
+        return rec
+    rec.case({**base, "what": "framework round trip"}, nontrivial=True, sample={"seed": seed, "residual_links": n_res})
+    rec.traces += 1
+    d = diff_content(framework_content(fw), framework_content(f2))
+    if d:
+        rec.violation({"api": "ProjectFramework.to_spreadsheet", "case": "content changed"}, f"generated framework (seed {seed}): {short(d)}", replay)
+        return rec
+    dd = diff_content(framework_content(f2), framework_content(f3), exact=True)
+    if dd:
+        rec.violation({"api": "ProjectFramework.to_spreadsheet", "case": "content changed on the second round trip"}, f"generated framework (seed {seed}): {short(dd)}", replay)
+    try:
+        d2 = rt_data(data, f2)
+        ps2 = at.ParameterSet(f2, d2, "rebuilt")
+        r2, e2 = try_sim(settings, f2, ps2)
+    except Exception as ex:
+        r2, e2 = None, f"{type(ex).__name__}: {str(ex)[:200]}"
+    rec.case({**base, "what": "paired simulation"}, nontrivial=True)
+    if e2:
+        rec.violation({"api": "round trip", "case": "simulation runs on one side only"}, f"generated framework (seed {seed}): original runs; rebuilt from its own spreadsheets: {e2}", replay)
+    else:
+        d12, w12 = U.result_diff(r1, r2)
+        rec.count("genfw.sim_pairs")
+        if d12 > TOL:
+            rec.violation({"api": "round trip", "case": "simulation differs after spreadsheet round trip"}, f"generated framework (seed {seed}): results differ by {d12:.3g} at {w12} after framework+databook round trip", replay)
+    return rec
+
+
+# ------------------------------------------------------------------------------------------------
 # job: generated databook + program book
 # ------------------------------------------------------------------------------------------------
 PROG_ALPHA = [c for c in U.INNER if c not in "+,=:"]
@@ -1029,6 +1103,8 @@ def run_job(job):
             return job, job_generated(job[1], c16.get_project)
         if kind == "migrated":
             return job, job_migrated(job[1])
+        if kind == "genfw":
+            return job, job_genfw(job[1])
         raise ValueError(kind)
     except Exception:  # noqa
         rec = Rec()
